@@ -49,6 +49,7 @@ const (
 	tIssueCommit        // issuance commitment (ProofU) with the shared secret
 	tRandStress         // tight loop of 2000 one-block reads from the process-wide generator (free-running class)
 	tGenKey             // gabikeys.GenerateKeyPair at a toy length (free-running class: parallel key generation under the race detector)
+	tVerifyUpdate       // Update.Verify on one update object made by the issuer itself (in-process authority) and shared by all tasks
 	tIssueRetry         // one CredentialBuilder answering twice (issuer nonce changed after a dropped session; or a proof list first): same U, fresh randomness
 	tOpKinds
 )
@@ -203,6 +204,11 @@ func runT(r *kernel.Run, s TSpec) *tResult {
 		}
 		return mustJSON(gabi.ProofList{pd})
 	}()
+	// an update object as the issuer's own process holds it (made by NewUpdate, never decoded), shared by all tasks
+	sharedUpd, err := ra.Update(0, ra.Head())
+	if err != nil {
+		panic(err)
+	}
 	theRaceLog().New() // discard anything reported during set-up
 
 	sched0 := s.Schedule
@@ -291,8 +297,12 @@ func runT(r *kernel.Run, s TSpec) *tResult {
 						}
 						pl, err := gabi.ProofBuilderList{cb}.BuildProofList(ctx, nonce, false)
 						rec(pl, err, op.Kind, -1, false, true)
+					case tVerifyUpdate:
+						if _, err := sharedUpd.Verify(pk); err != nil {
+							sl.errs = append(sl.errs, "verify shared update: "+err.Error())
+						}
 					case tIssueRetry:
-						cb, err := gabi.NewCredentialBuilder(pk, ctx, secret, big.NewInt(4242), nil, nil)
+						cb, err := gabi.NewCredentialBuilder(pk, ctx, secret, big.NewInt(4242), nil, []int{1})
 						if err != nil {
 							sl.errs = append(sl.errs, err.Error())
 							continue
